@@ -22,7 +22,7 @@ def main(argv):
         mod = load_check(argv[1])
         res = run_one(mod, int(argv[2]), argv[3] if len(argv) > 3 else "quick")
         res.pop("scenario", None) if "-q" in argv else None
-        print(json.dumps(res, indent=1, default=str)[:20000])
+        print(json.dumps(res, indent=1, default=str) if "-q" in argv else json.dumps(res, indent=1, default=str)[:20000])
         return 0
     cid = argv[0]
     tier = "quick"
